@@ -4,13 +4,15 @@ import os
 import random
 
 import c14_util as u
+import py2v_prox
 from common import CORPUS
 
 CONFIG = {
     "cone": ["Base/ListUtil.v", "Base/QUtil.v", "Base/FirstArgmax.v", "Model/Store.v", "Proofs/StoreProofs.v", "Model/Archive.v",
              "Proofs/ArchiveProofs.v", "Proofs/C01Proofs.v", "Proofs/C02Proofs.v", "Model/Proximity.v", "Proofs/KnnProofs.v", "Proofs/ProximityProofs.v",
-             "Proofs/C14Proofs.v", "Properties/C14.v", "Proofs/C06Proofs.v", "Proofs/ProximityStats.v", "Properties/C06Proximity.v"],
-    "extra_property_files": ["Properties/C06Proximity.v"],
+             "Proofs/C14Proofs.v", "Properties/C14.v", "Proofs/C06Proofs.v", "Proofs/ProximityStats.v", "Properties/C06Proximity.v",
+             "Model/ProxFacts.v", "Generated/ProxGen.v", "Refine/ProxRefine.v"],
+    "extra_property_files": ["Properties/C06Proximity.v", "Refine/ProxRefine.v"],
     "trusted": ["Model/Proximity.v models ProximityArchive over exact rationals on top of Model/Archive.v (ArchiveBase defaults) and "
                 "Model/Store.v (resize); the k-D tree is not modelled: each candidate carries its distances to the stored entries of the "
                 "pre-call archive (1-D: |x-y| computed exactly by the harness; 2-3-D integer/half-integer lattices: numpy's float64 "
@@ -86,6 +88,7 @@ def report(rep, case, d, driver):
 def check(rep, tier, seed, driver):
     import kd_scan
     kd_scan.report(rep)
+    py2v_prox.report(rep)
     rng = random.Random(seed)
     n = 600 if tier == "quick" else 2000
     rep.rule = ("random ProximityArchive configurations (k 1..8, thresholds incl. 0, initial_capacity 1..128, float32/float64, with/without "
